@@ -230,13 +230,25 @@ def one(run, names, rows, null, cfg, kind, pending, with_oracle=True, earlier=No
     if any(math.isnan(x) for r in rows for x in r):
         tags.append("has-nan")
     run.case(case, nontrivial=ok and ncols >= 2, tags=tags)
+    # integer conversions (%d, %i, %6d) are numeric formats too: outside the model (they truncate), but a finite-or-NaN table must
+    # still be WRITTEN, its NaNs through the NULL marker
+    fmts = [cfg["fmt"]] + [f for k_, f in cfg["column_fmt"].items() if 0 <= k_ < ncols]
+    int_only = (not ok and why in ("fmt", "column_fmt") and all(mg.fmt_parse(f) is not None or f in ("%d", "%i", "%6d") for f in fmts)
+                and all(math.isnan(x) or (not math.isinf(x) and abs(x) < 1e15) for r in rows for x in r) and is_finite_number(null))
     try:
         las, text = real_write(names, rows, null, cfg, earlier=earlier)
     except Exception as e:
         run.dist["write-raises:" + type(e).__name__ + (":ok" if ok else ":ctx")] += 1
         if ok:
             run.fail("write-raises", case, repr(e))
+        elif int_only:
+            run.fail("write-raises-integer-format", case, repr(e))
         return
+    if int_only and any(math.isnan(x) for r in rows for x in r[1:]):
+        body = data_part(text)
+        toks = [t for ln in (body if isinstance(body, list) else str(body).split("\n")) for t in str(ln).split()]
+        if any(t.lower() in ("nan", "-nan") for t in toks):
+            run.fail("nan-not-through-null-marker", case, {"data": toks[:40]})
     real = data_part(text)
     session = [c.mnemonic for c in las.curves]
     pending.append((case, ok, real, lines_request(cfg, str(las.well["NULL"].value), session, rows)))
